@@ -1,6 +1,7 @@
 package otto
 
 import (
+	"fmt"
 	"math"
 	"time"
 )
@@ -65,9 +66,16 @@ func builtinDateToUTCString(call FunctionCall) Value {
 func builtinDateToISOString(call FunctionCall) Value {
 	date := dateObjectOf(call.runtime, call.thisObject())
 	if date.isNaN {
-		return stringValue("Invalid Date")
+		// 15.9.5.43
+		panic(call.runtime.panicRangeError("Invalid time value"))
 	}
-	return stringValue(date.Time().Format("2006-01-02T15:04:05.000Z"))
+	// Years outside 0..9999 use the expanded form +-YYYYYY (15.9.1.15.1).
+	utc := date.Time()
+	year := fmt.Sprintf("%04d", utc.Year())
+	if utc.Year() < 0 || utc.Year() > 9999 {
+		year = fmt.Sprintf("%+07d", utc.Year())
+	}
+	return stringValue(year + utc.Format("-01-02T15:04:05.000Z"))
 }
 
 func builtinDateToJSON(call FunctionCall) Value {
